@@ -7,6 +7,8 @@ From SU.Model Require Import PhaseAcc Adsr.
 From SU.Spec Require Import AdsrSpec.
 From SU.Proofs Require Import AdsrClockProofs.
 From SU.Proofs Require Import AdsrKillers.
+From SU.Proofs Require Import AdsrTrace2Proofs.
+From Flocq Require Import Core.
 Open Scope R_scope.
 
 (** every reachable state satisfies the clock invariant (any sample rate, any f32 arguments) *)
@@ -155,6 +157,38 @@ Theorem C02_rest_until_gate_on : forall fs ops, ~ In AGateOn ops ->
   a_state (adsr_run fs ops) = AtRest /\ R32 (a_value (adsr_run fs ops)) = 0.
 Proof. exact rest_until_gate_on. Qed.
 
+(** "never earlier", integer reading: a phase configured for N = T fs samples takes more than N - 1 ticks *)
+Theorem C02_never_a_tick_early : forall fs t, fs_ok fs ->
+  fin_in t (R32 MIN_TIME) (R32 MAX_TIME) ->
+  let N := R32 t * R32 fs in
+  let n := IZR (ticks_for (inc_of fs t)) in
+  N - 1 < n.
+Proof. exact C02_never_a_tick_early. Qed.
+
+(** i.e. at least floor(N) ticks *)
+Theorem C02_at_least_floor_N : forall fs t, fs_ok fs ->
+  fin_in t (R32 MIN_TIME) (R32 MAX_TIME) ->
+  (Zfloor (R32 t * R32 fs) <= ticks_for (inc_of fs t))%Z.
+Proof. exact C02_at_least_floor_N. Qed.
+
+(** the literal reading N <= n is false: 105140 Hz, T = 10457596 * 2^-19 s gives increment 8 and 2097152 ticks for N = 2097152.03 (the increment is truncated to an integer number of counter steps; about 11 000 (fs, T) pairs near N = 2^24/k behave so) *)
+Theorem C02_never_earlier_literal_fails :
+  fs_ok FS_W /\ fin_in T_W (R32 MIN_TIME) (R32 MAX_TIME) /\
+  to_bits (time_from T_W) = to_bits T_W /\
+  inc_of FS_W T_W = 8%Z /\ ticks_for (inc_of FS_W T_W) = 2097152%Z /\
+  IZR (ticks_for (inc_of FS_W T_W)) < R32 T_W * R32 FS_W.
+Proof. exact C02_never_earlier_literal_fails. Qed.
+
+(** the same on an actual run of the model *)
+Theorem C02_never_earlier_literal_fails_run :
+  let s0 := adsr_run FS_W [ASetAttack T_W; AGateOn] in
+  let k := Z.to_nat 2097151 in
+  a_state s0 = Attack /\ pa_acc (a_pa s0) = 0%Z /\
+  a_state (fold_left adsr_step (repeat ATick k) s0) = Attack /\
+  a_state (adsr_step (fold_left adsr_step (repeat ATick k) s0) ATick) = Decay /\
+  IZR (Z.of_nat k + 1) < R32 (a_attack s0) * R32 (pa_fs (a_pa s0)).
+Proof. exact C02_never_earlier_literal_fails_run. Qed.
+
 Print Assumptions C02_invariant.
 Print Assumptions C02_gate_on.
 Print Assumptions C02_gate_off.
@@ -173,3 +207,7 @@ Print Assumptions C02_inc_is_phase_time.
 Print Assumptions C02_tick_explicit.
 Print Assumptions C02_new_at_rest.
 Print Assumptions C02_rest_until_gate_on.
+Print Assumptions C02_never_a_tick_early.
+Print Assumptions C02_at_least_floor_N.
+Print Assumptions C02_never_earlier_literal_fails.
+Print Assumptions C02_never_earlier_literal_fails_run.
